@@ -382,6 +382,21 @@ func genHistory(r *rand.Rand, h *harness, nops int, do func(string) string) {
 	for i := 0; i < nops; i++ {
 		switch x := r.Intn(100); {
 		case x < 55:
+			if r.Intn(30) == 0 {
+				// a long outage: well over one scan window (100 blocks) passes, mostly empty blocks
+				for k := 60 + r.Intn(190); k > 0; k-- {
+					height++
+					if r.Intn(25) == 0 {
+						s := txSpec()
+						if h.counts(s) {
+							emitted++
+						}
+						do(fmt.Sprintf("m_block %d %s", height, s))
+					} else {
+						do(fmt.Sprintf("m_block %d -", height))
+					}
+				}
+			}
 			height++
 			n := r.Intn(5)
 			if r.Intn(3) == 0 {
